@@ -222,6 +222,23 @@ def run(ctx):
             if ctx.quick and i % 3 != ctx.seed % 3:
                 continue
             jobs.append((i, a, kind, rnd.choice(MODES)))
+        # 6. members whose compressed data is aimed at the decoders' table readers (count fields at their extremes, unary
+        #    runs, the single-code forms with the largest raw code values: p_C09.table_headers), declared long enough for the
+        #    decode to run to the end of the data; decoded by the tool (t / p / x): an overrun of a decoder's output buffer
+        #    or tables is a heap error of the TOOL, whatever the decoder theorems say about the model
+        import p_C09
+        rnd6 = random.Random(ctx.seed * 67867979 + 8)
+        k6 = len(arcs) + 100000
+        for meth in ("-lh4-", "-lh5-", "-lh6-", "-lh7-", "-lhx-", "-lk7-", "-pm2-", "-pm1-", "-lh1-"):
+            streams = p_C09.table_headers(rnd6, meth)
+            if ctx.quick and len(streams) > 37:
+                streams = rnd6.sample(streams[:-27], 10) + streams[-27:]
+            for st in streams:
+                f = {"level": 1, "method": b"-lh7-" if meth == "-lk7-" else meth.encode(), "clen": len(st), "length": 66000,
+                     "crc": 0, "attr": 0x20, "os": 0x20 if meth == "-lk7-" else ord("U"), "time": 0x21, "name": b"m", "exts": []}
+                a = lb.build_header(f) + st + b"\0"
+                jobs.append((k6, a, "decoder-aimed", rnd6.choice([["t"], ["t"], ["p"], ["xq2f"]]))); k6 += 1
+                dist["decoder-aimed:" + meth] += 1
         # the extra option/argument forms, on intact repository archives (so that members are really matched and extracted)
         # and on a few damaged ones
         rnd2 = random.Random(ctx.seed * 49979687 + 8)
@@ -265,7 +282,7 @@ def run(ctx):
                        "xq2f e as uid 65534 in a scratch directory; plus (directed_archives) level-0 extended areas of every length 1..30 starting like a Unix / "
                        "OS-9 area and every length field of every level set to 0..70 and around its value with the checksum repaired (library, a "
                        "sample through the tool), and (MODES2) w=DIR extraction and member patterns after the archive name on intact and "
-                       "damaged archives. non-trivial = archive that yields at least one header / a tool run",
+                       "damaged archives. plus members aimed at the decoders' table readers (single-code forms with the largest raw values, count fields at their extremes) decoded by the tool. non-trivial = archive that yields at least one header / a tool run",
                "distribution": dict(dist), "samples": [lines[0][:160], lines[len(lines) // 2][:160], lines[-1][:160]]}
         return {"violations": viol[:10], "mismatches": mism[:10], "coverage": cov,
                 "search_note": "direct oracle: sanitizer reports / abnormal exits of the library driver and of the tool"}
